@@ -78,6 +78,22 @@ Theorem C08_order : forall (V : Type) (s : nat -> nat) (n : node V),
   mono_on s (prior_ids V n) -> ordered_ids V (ren V s n) = map s (ordered_ids V n).
 Proof. exact ordered_ids_ren. Qed.
 
+(* the same facts for ANY renaming s of a ModelTree that is injective on the model's own parameters
+   (used with C08_db_pinned: the pinned database form merges nothing iff the message ids are distinct) *)
+Theorem C08_ren_sharing : forall (V : Type) (s : nat -> nat) (n : node V) (i j : nat) (d : path * nat),
+  inj_on s (prior_ids V n) -> i < List.length (walk V n) -> j < List.length (walk V n) ->
+  (snd (nth i (walk V (ren V s n)) (second s d)) = snd (nth j (walk V (ren V s n)) (second s d))
+   <-> snd (nth i (walk V n) d) = snd (nth j (walk V n) d)).
+Proof. exact partition_ren. Qed.
+
+Theorem C08_ren_count : forall (V : Type) (s : nat -> nat) (n : node V),
+  inj_on s (prior_ids V n) -> prior_count V (ren V s n) = prior_count V n.
+Proof. exact prior_count_ren. Qed.
+
+Theorem C08_ren_instance : forall (V : Type) (bin : binop -> V -> V -> V) (s : nat -> nat) (n : node V) (pv : list (path * V)),
+  wf V n -> inj_on s (prior_ids V n) -> inst_from_paths V bin (ren V s n) pv = inst_from_paths V bin n pv.
+Proof. exact inst_from_paths_ren. Qed.
+
 (* ---- the pinned database form in general: parameter p comes back under its MESSAGE id mu p ---- *)
 Theorem C08_db_pinned : forall (V : Type) (cf : cfg) (mu : nat -> nat) (n : snode V),
   fix_db_id cf = false -> forall_nodes V (db_node_ok V cf) n = true ->
